@@ -125,10 +125,14 @@ func (c *Classifier) AddValue(key, value string) error {
 		return fmt.Errorf("value already registered with key %q", key)
 	}
 	norm := c.normalize(value)
+	re, err := regexp.Compile(regexp.QuoteMeta(norm))
+	if err != nil {
+		return fmt.Errorf("cannot compile value registered with key %q: %v", key, err)
+	}
 	c.values[key] = &knownValue{
 		key:             key,
 		normalizedValue: norm,
-		reValue:         regexp.MustCompile(norm),
+		reValue:         re,
 	}
 	return nil
 }
@@ -142,11 +146,15 @@ func (c *Classifier) AddPrecomputedValue(key, value string, set *searchset.Searc
 	if _, ok := c.values[key]; ok {
 		return fmt.Errorf("value already registered with key %q", key)
 	}
+	re, err := regexp.Compile(regexp.QuoteMeta(value))
+	if err != nil {
+		return fmt.Errorf("cannot compile value registered with key %q: %v", key, err)
+	}
 	set.GenerateNodeList()
 	c.values[key] = &knownValue{
 		key:             key,
 		normalizedValue: value,
-		reValue:         regexp.MustCompile(value),
+		reValue:         re,
 		set:             set,
 	}
 	return nil
